@@ -81,8 +81,8 @@ func apisimExec(r *Run) {
 			r.Cfg["long"] = n
 		}
 	}
-	if r.Prop == "C08" {
-		// the listing after a reorganisation of a boundary size
+	if r.Prop == "C08" || r.Prop == "C02" || r.Prop == "C04" {
+		// the listing / the verdicts / the reads after a reorganisation of a boundary size
 		den := 120
 		if r.Tier == "thorough" {
 			den = 30
@@ -141,6 +141,9 @@ func (a *apiSim) batch() {
 		inflight(a.c04)
 	case "C08":
 		a.c08()
+		if st := w.DB.Stats(); st.InUse != 0 {
+			r.Fail(r.Prop, "connection-leak", fmt.Sprintf("in-use=%d", st.InUse), "after the listing requests had all been answered %d connection(s) of the database pool are still in use", st.InUse)
+		}
 		return // c08 may ingest between pages; it has its own read-only accounting
 	case "C13":
 		inflight(a.c13)
@@ -153,6 +156,11 @@ func (a *apiSim) batch() {
 			prop = "C04"
 		}
 		r.Fail(prop, "read-modified-store", "batch", "client requests changed the headers table")
+	}
+	// every request is over: no connection of the service's pool may still be checked out (a leaked one keeps its read
+	// cursor and its lock on the file, and the next write waits for it in vain)
+	if st := w.DB.Stats(); st.InUse != 0 {
+		r.Fail(r.Prop, "connection-leak", fmt.Sprintf("in-use=%d", st.InUse), "after the requests of this batch had all been answered %d connection(s) of the database pool are still in use", st.InUse)
 	}
 }
 
@@ -213,6 +221,16 @@ func (a *apiSim) c02() {
 		case 6: // negative / huge heights
 			x := a.anyHeader("any-idx")
 			it = verifyItem{x.Raw.Merkle.String(), []int64{-1, -3, -2147483648, 2147483647, 2147483646 - tip}[t.Draw(5, "odd-h")]}
+		}
+		// strings that are no merkle root at all but mean something to a pattern match or a parser
+		if t.Chance(1, 10, "odd-root") {
+			x := lc[t.Draw(len(lc), "odd-root-lc")]
+			root := x.Raw.Merkle.String()
+			odd := []string{"%", "_", root[:10] + "%", "%" + root[54:], root[:31] + "_" + root[32:], strings.ToUpper(root), " " + root, root + " ", "", "*", root[:63]}
+			it = verifyItem{odd[t.Draw(len(odd), "odd-root-kind")], int64(x.Height)}
+			if it.MerkleRoot == root { // (a root without letters has no other case)
+				it.MerkleRoot = "%"
+			}
 		}
 		if len(items) > 0 && t.Chance(1, 8, "dup-item") {
 			it = items[t.Draw(len(items), "dup-of")]
@@ -1173,7 +1191,11 @@ func (a *apiSim) c16() {
 				qs.Set("batchSize", someNum())
 			}
 			if t.Chance(1, 2, "has-key") {
-				qs.Set("lastEvaluatedKey", someHash())
+				if t.Chance(1, 2, "key-is-a-stored-root") {
+					qs.Set("lastEvaluatedKey", a.anyHeader("key-root").Raw.Merkle.String()) // of a longest, stale or orphan header
+				} else {
+					qs.Set("lastEvaluatedKey", someHash())
+				}
 			}
 			path = "/api/v1/chain/merkleroot?" + qs.Encode()
 		case 7:
